@@ -39,6 +39,8 @@ func main() {
 		os.Exit(cmdLemmas(os.Args[2:]))
 	case "list":
 		os.Exit(cmdList(os.Args[2:]))
+	case "names":
+		os.Exit(cmdNames(os.Args[2:]))
 	case "replay":
 		os.Exit(cmdReplay(os.Args[2:]))
 	case "effects":
